@@ -54,24 +54,25 @@ def psds(rng, D, lead, cond=100.0, rank=None):
     return Px, Pn
 
 
-def compose(name, ban, Px, Pn, kw):
-    """the composition of primitives spelled by the name, written out by hand."""
+def compose(name, ban, Px, Pn, kw, atf=None):
+    """the composition of primitives spelled by the name, written out by hand (atf: options of the ATF / rank-one step)."""
     from pb_bss.extraction import beamformer as bf, beamformer_wrapper as bw
+    atf = atf or {}
     parts = name.split('+')
     tgt = Px
     if parts[0] == 'rank1_pca':
-        tgt = bw.get_pca_rank_one_estimate(Px)
+        tgt = bw.get_pca_rank_one_estimate(Px, **atf)
         parts = parts[1:]
     elif parts[0] == 'rank1_gev':
-        tgt = bw.get_gev_rank_one_estimate(Px, Pn)
+        tgt = bw.get_gev_rank_one_estimate(Px, Pn, **atf)
         parts = parts[1:]
     core = '+'.join(parts)
     if core == 'pca':
         w = bf.get_pca_vector(tgt)
     elif core == 'pca+mvdr':
-        w = bf.get_mvdr_vector(bf.get_pca_vector(tgt), Pn)
+        w = bf.get_mvdr_vector(bf.get_pca_vector(tgt, **atf), Pn)
     elif core == 'scaled_gev_atf+mvdr':
-        g = bf.get_gev_vector(tgt, Pn)
+        g = bf.get_gev_vector(tgt, Pn, **atf)
         w = bf.get_mvdr_vector(np.einsum('...dD,...D->...d', Pn, g), Pn)
     elif core == 'mvdr_souden':
         w = bf.get_mvdr_vector_souden(tgt, Pn, **kw)
@@ -97,14 +98,20 @@ def run_wrapper(case, R):
     Px = Px + 1e-9 * np.eye(D)
     name = case['core'] + ('+ban' if case['ban'] else '')
     kw = {}
+    atf = {}
+    if case['rs'][-1] % 3 == 0:
+        if case['core'].startswith('rank1_pca') or case['core'] == 'pca+mvdr':
+            atf = dict(scaling=[None, 'trace', 'eigenvalue'][int(rng.integers(3))])
+        elif case['core'].startswith('rank1_gev') or case['core'] == 'scaled_gev_atf+mvdr':
+            atf = dict(use_eig=True)
     if case['explicit_ref']:
         if 'souden' in name:
             kw = dict(ref_channel=int(rng.integers(0, D)))
         elif 'wmwf' in name:
             kw = dict(reference_channel=int(rng.integers(0, D)), distortion_weight=float(rng.choice([0.0, 1.0, 3.5])))
-    info = dict(name=name, D=D, F=F, kwargs=kw)
+    info = dict(name=name, D=D, F=F, kwargs=kw, atf_kwargs=atf)
     try:
-        ref = compose(case['core'], case['ban'], Px, Pn, dict(kw))
+        ref = compose(case['core'], case['ban'], Px, Pn, dict(kw), atf)
     except Exception as e:
         if not instr.is_library_exception(e):
             raise
@@ -112,7 +119,7 @@ def run_wrapper(case, R):
         R.count(f'composition of {name} raised {type(e).__name__}: {str(e)[:80]}')
         return
     try:
-        got = get_bf_vector(name, Px, Pn, **dict(kw))
+        got = get_bf_vector(name, Px, Pn, **dict(kw), **({'atf_kwargs': dict(atf)} if atf else {}))
     except Exception as e:
         if not instr.is_library_exception(e):
             raise
@@ -225,8 +232,16 @@ def run_phase(case, R):
     rng = gen.rng_of(case)
     D, F, lead = case['D'], case['F'], tuple(case['lead'])
     w = gen.cnormal(rng, (*lead, F, D))
+    special = case['rs'][-1] % 4 == 0 and F >= 3
+    if special:
+        # exactly zero inner products between consecutive bins: a zero bin (what Souden / WMWF return for a zero PSD) and
+        # exactly orthogonal one-hot vectors
+        w[..., 1, :] = 0
+        if F >= 5 and D >= 2:
+            w[..., 3, :] = 0; w[..., 3, 0] = 1.0
+            w[..., 4, :] = 0; w[..., 4, 1] = 1.0
     wb = w.copy()
-    info = dict(D=D, F=F, lead=list(lead))
+    info = dict(D=D, F=F, lead=list(lead), zero_inner_products=special)
     try:
         v = phase_correction(w if rng.uniform() < 0.5 else w.tolist())
     except Exception as e:
@@ -239,7 +254,7 @@ def run_phase(case, R):
     R.check('C13.phase', v.shape == w.shape and mag <= 1e-12, 'phase/magnitudes', f'magnitudes changed by {mag:.3e}', **info)
     if F > 1:
         ip = np.einsum('...fd,...fd->...f', v[..., 1:, :].conj(), v[..., :-1, :])
-        sc = np.abs(ip)
+        sc = np.where(np.abs(ip) > 0, np.abs(ip), 1.0)        # a zero inner product is trivially aligned
         bad = float((np.abs(ip.imag) / sc).max())
         neg = float((-ip.real / sc).max())
         R.check('C13.phase', bad <= 1e-9 and neg <= 0, f'phase/not-aligned/{"lead" if lead else "nolead"}', f'w_f^H w_(f-1) is not real non-negative for every leading index (imag/abs {bad:.3e}, -real/abs {neg:.3e})', **info)
@@ -256,7 +271,41 @@ def run_phase(case, R):
         R.mark_nontrivial('phase', D, 'nolead')
 
 
+def run_singular_stack(case, R):
+    """exactly singular / zero noise PSDs somewhere in a stack with extra leading axes: every problem must equal its stand-alone result"""
+    from pb_bss.extraction import beamformer as bf
+    rng = gen.rng_of(case)
+    D, F = case['D'], max(2, min(case['F'], 8))
+    lead = tuple(case['lead']) or (2,)
+    Px, Pn = psds(rng, D, (*lead, F), rank=int(rng.integers(1, D + 1)))
+    Pn = Pn.copy()
+    idx = tuple(int(rng.integers(n)) for n in (*lead, F))
+    Pn[idx] = 0
+    if rng.uniform() < 0.5:
+        idx2 = tuple(int(rng.integers(n)) for n in (*lead, F))
+        Pn[idx2][0, :] = 0; Pn[idx2][:, 0] = 0
+    ref = int(rng.integers(0, D))
+    info = dict(D=D, F=F, lead=list(lead))
+    for which, f in (('souden', lambda px, pn: bf.get_mvdr_vector_souden(px, pn, ref_channel=ref)),
+                     ('wmwf', lambda px, pn: bf.get_wmwf_vector(px, pn, reference_channel=ref, distortion_weight=1.0))):
+        try:
+            w = f(Px, Pn)
+        except Exception as e:
+            if not instr.is_library_exception(e):
+                raise
+            R.fail('C13.singular', f'singular-stack/raised/{which}', f'{which} raised {type(e).__name__} on a stack with an exactly singular bin', **info)
+            continue
+        dv = 0.0
+        for li in np.ndindex(*lead):
+            one = f(Px[li], Pn[li])
+            dv = max(dv, float(np.abs(w[li] - one).max() / max(float(np.abs(one).max()), 1e-300)))
+        R.check('C13.singular', np.isfinite(w).all() and dv <= 1e-9, f'singular-stack/{which}', f'{which} on a stack with an exactly singular bin differs from the per-problem results by {dv:.3e}', dev=dv, **info)
+    R.mark_nontrivial('singular-stack', D, F, list(lead))
+
+
 def run_singular(case, R):
+    if case['rs'][-1] % 3 == 0:
+        return run_singular_stack(case, R)
     from pb_bss.extraction import beamformer as bf
     rng = gen.rng_of(case)
     D, F = case['D'], max(2, case['F'])
